@@ -281,6 +281,43 @@ theorem xf_comp_fields (outer inner : Xf) (q : Pt) (c : Color) :
 theorem stack_box_cons (B : Rect) (a : Adapter) (rest : Stack) :
     stackBox B (a :: rest) = stackBox (a.bbox B) rest := rfl
 
+/-- A nesting built on top of a nesting is the composition of the two (boxes, lowered calls and
+transformations). -/
+theorem stack_append (B : Rect) (s1 s2 : Stack) :
+    stackXf B (s1 ++ s2) = (stackXf B s1).comp (stackXf (stackBox B s1) s2) ∧
+    stackBox B (s1 ++ s2) = stackBox (stackBox B s1) s2 ∧
+    ∀ c, lowerStack B (s1 ++ s2) c = lowerStack B s1 (lowerStack (stackBox B s1) s2 c) :=
+  ⟨stackXf_append B s1 s2, stackBox_append B s1 s2, lowerStack_append B s1 s2⟩
+
+/-- Instances of the composition law: two translations add, -/
+theorem translated_translated (B : Rect) (d1 d2 : Pt) (m : Pt → Option Color) (q : Pt) :
+    (stackXf B [.translated d1, .translated d2]).act m q = m (q - (d1 + d2)) := by
+  simp only [stackXf, Xf.act_comp, Xf.act_id, (adapter_xf _ _ _).2.2.1]
+  rw [Pt.sub_add]
+
+/-- two clip areas intersect (with each other and the root's box), -/
+theorem clipped_clipped (B r1 r2 : Rect) (m : Pt → Option Color) (q : Pt) :
+    (stackXf B [.clipped r1, .clipped r2]).act m q =
+      if r1.contains q = true ∧ r2.contains q = true ∧ B.contains q = true then m q else none := by
+  simp only [stackXf, Xf.act_comp, Xf.act_id, (adapter_xf _ _ _).1, Adapter.bbox]
+  by_cases h1 : r1.contains q = true <;> by_cases hB : B.contains q = true <;>
+    by_cases h2 : r2.contains q = true <;> simp [h1, h2, hB, Rect.mem_intersection]
+
+/-- a clip area given in translated coordinates is the translated region in root coordinates, -/
+theorem translated_clipped (B r : Rect) (d : Pt) (m : Pt → Option Color) (q : Pt) :
+    (stackXf B [.translated d, .clipped r]).act m q =
+      if r.contains (q - d) = true ∧ B.contains q = true then m (q - d) else none := by
+  simp only [stackXf, Xf.act_comp, Xf.act_id, (adapter_xf _ _ _).1, (adapter_xf _ _ _).2.2.1]
+  have : ((Adapter.translated d).bbox B).contains (q - d) = B.contains q := by
+    rw [translated_bbox]; congr 1; rw [Pt.ext_iff']; simp only [Pt.add_x, Pt.add_y, Pt.sub_x, Pt.sub_y]; omega
+  rw [this]
+
+/-- and colour conversions compose, the root-most one applied last. -/
+theorem converted_converted (B : Rect) (f g : Color → Color) (m : Pt → Option Color) (q : Pt) :
+    (stackXf B [.converted f, .converted g]).act m q = (m q).map (fun c => f (g c)) := by
+  simp only [stackXf, Xf.act_comp, Xf.act_id, (adapter_xf _ _ _).2.2.2]
+  cases m q <;> rfl
+
 /-- **Nestings, per call** (any depth: induction over the stack): the call the root receives
 means the composed transformation of what the call means on the top of the nesting. -/
 theorem stack_exact (B : Rect) (s : Stack) (c : Call) (h : stackOk B s c) (q : Pt) :
